@@ -24,9 +24,9 @@ class Worker:
     def execute(self, ops, passive):
         return procs.fork_call(histsim.execute, self.sf, ops, passive, timeout=120.0)
 
-    def run_ops(self, ops, passive, probes=None):
+    def run_ops(self, ops, passive, probes=None, second=False):
         log = self.execute(ops, passive)
-        return log, self.verifier.verify(ops, log, probes)
+        return log, self.verifier.verify(ops, log, probes, second)
 
     def close(self):
         self.oracle.close()
@@ -51,7 +51,8 @@ def run_one(prop, base_seed, i, want_sample=False):
     cfg, ops = gen.gen_history(rng, prop)
     probes = {}
     q0, h0 = W.oracle.queries, W.oracle.hits
-    log, viols = W.run_ops(ops, cfg["passive"], probes)
+    # every 4th run is judged by two oracle interpreters (hash seeds 77 and 4242) that must agree
+    log, viols = W.run_ops(ops, cfg["passive"], probes, second=(i % 4 == 0))
     mine = [v for v in viols if prop in histsim.ORACLE_PROPS.get(v.oracle, {})]
     summary = {
         "i": i,
@@ -105,7 +106,7 @@ def judge(W, prop, cfg, ops, viols, summary, base_seed, i):
         summary["known"].append({"id": k["id"], "what": k["what"], "class": rep["violation_class"]})
         drop = {op["id"] for op in rep["ops"] if op["op"] == "mutate"}
         cur = [op for op in cur if op["id"] not in drop]
-        _, viols = W.run_ops(cur, cfg["passive"])
+        _, viols = W.run_ops(cur, cfg["passive"], second=(i % 4 == 0))
 
 
 def _short(r):
@@ -155,7 +156,7 @@ def minimise(W, prop, cfg, ops, viol, budget=500):
             return None
         spent[0] += 1
         try:
-            log, viols = W.run_ops(cand, passive)
+            log, viols = W.run_ops(cand, passive, second=(cls == "oracles_agree"))
         except procs.HarnessError:
             return None
         v = _same(viols, cls)
